@@ -39,7 +39,7 @@ def run(ctx):
         "Base64: all byte strings of <= 3 bytes over the %s byte alphabet x spelling variants; "
         "Limits: field x shape (code points / bytes at, below, above 255; 1-, 2-, 4-byte characters) x path x version "
         "x content hash on receipt (match / mismatch re-parsed after redaction / mismatch unchanged by redaction), "
-        "JSON sizes 65535/65536/65537, and pairs (byte-only excess + hard excess); "
+        "JSON sizes 65535/65536/65537, and every pair of excesses (field, byte-only | code points) on two of type / state key / sender / room ID / event size; "
         "VersionTable: 16 versions x (getters + 34 probes). "
         "distinct = distinct (parser, grammar description, verdict) / (variant, length, alphabet) / "
         "(family, path, version class, shape class, verdict) / (probe, outcome) classes"
